@@ -7,8 +7,8 @@ CONSTANTS
   Amts = {3}
   Cap = 40
   Rates = {2}
-  MaxFees = 2
-  Openers = {"A"}
+  MaxFees = 1
+  Openers = {"B"}
   InitRate = 1
   F6Quirk = FALSE
   F7Quirk = FALSE
